@@ -141,7 +141,7 @@ def native_run(exe, seed=None, replay=None, yield_den=None, timeout=60):
 
 def validate_translation(q, eb, ec, use_hook, seed0):
     """same value stream into both builds; logs must be identical"""
-    n = q.validate; same = 0; ended = {'ok': 0, 'pruned': 0, 'fail': 0}; samples = []
+    n = q.validate; same = 0; ended = {'ok': 0, 'pruned': 0, 'fail': 0}; samples = []; native_fail = []
     yd = None if (q.mode == 'seq') else (3 if use_hook else 0)
     for i in range(n):
         seed = seed0 * 1000 + i
@@ -149,6 +149,12 @@ def validate_translation(q, eb, ec, use_hook, seed0):
         rc_, oc = native_run(ec, seed=seed, yield_den=yd)
         if 'undefined behaviour in the source' in ob:
             ended.setdefault('ub_in_source', 0); ended['ub_in_source'] += 1; continue   # no defined result to compare
+        if 'ASSERT-FAIL' in oc:
+            # a concrete failing run of the REAL code (independent of the translation): reported as a violation by run_query
+            ended['fail'] += 1
+            msg = re.search(r'ASSERT-FAIL (.*)', oc).group(1)
+            native_fail.append({'seed': seed, 'desc': msg, 'log': oc.strip().split('\n')[-8:]})
+            continue
         if ob != oc or rb != rc_:
             raise Broken('TRANSLATION VALIDATION MISMATCH (seed %d): generated C and the g++ build of the real code disagree\n--- generated C (rc=%s)\n%s\n--- real (rc=%s)\n%s'
                          % (seed, rb, ob[-1500:], rc_, oc[-1500:]))
@@ -156,10 +162,7 @@ def validate_translation(q, eb, ec, use_hook, seed0):
         if not m: raise Broken('native run did not finish (seed %d):\n%s' % (seed, ob[-1500:]))
         ended[m.group(1)] += 1; same += 1
         if len(samples) < 2: samples.append({'seed': seed, 'log': ob.strip().split('\n')[-4:]})
-    if ended['fail']:
-        # a concrete failing run of the real code: a violation found by the validation runs themselves
-        return same, ended, samples
-    return same, ended, samples
+    return same, ended, samples, native_fail
 
 # ---------------- cbmc
 RES_RE = re.compile(r'^\[(?P<id>[^\]]+)\] (?:line (?P<line>\d+) )?(?P<desc>.*): (?P<st>SUCCESS|FAILURE|UNKNOWN|ERROR)$')
@@ -170,8 +173,10 @@ def cbmc_cmd(q, wd, trace=False, prop=None):
            '--signed-overflow-check', '--undefined-shift-check', '--no-malloc-may-fail']
     if not trace: cmd.append('--slice-formula')
     if prop: cmd += ['--property', prop]
-    if q.unwindset:
-        cmd += ['--unwindset', ','.join('%s:%d' % kv for kv in sorted(q.unwindset.items()))]
+    uws = dict(q.unwindset)
+    if q.mode == 'coro': uws.setdefault('main.0', q.K + 1)      # the scheduler loop of the driver: K segments
+    if uws:
+        cmd += ['--unwindset', ','.join('%s:%d' % kv for kv in sorted(uws.items()))]
     if q.object_bits: cmd += ['--object-bits', str(q.object_bits)]
     if q.depth: cmd += ['--depth', str(q.depth)]
     if q.solver == 'kissat': cmd += ['--external-sat-solver', 'kissat']
@@ -236,9 +241,21 @@ def run_query(q, tier, seed, scratch_root, hook_available=False, keep=False):
         if q.validate:
             t1 = time.time()
             eb, ec, use_hook = build_native(q, wd, flags, hook_available)
-            same, ended, samples = validate_translation(q, eb, ec, use_hook, seed)
+            same, ended, samples, native_fail = validate_translation(q, eb, ec, use_hook, seed)
             R['translation_validation'] = {'runs_identical': same, 'ended': ended, 'samples': samples, 'hooked_atomics': use_hook,
                                            't_s': round(time.time() - t1, 2)}
+            if native_fail:
+                # the real code itself fails a harness assertion on a concrete input stream: no solver needed to call it a violation
+                R['status'] = 'counterexample'; R['counterexamples'] = []; R['properties_checked'] = 0
+                seen = set()
+                for nf in native_fail:
+                    if nf['desc'] in seen: continue
+                    seen.add(nf['desc'])
+                    rp = os.path.join(wd, 'replay_native_seed_%d.txt' % nf['seed'])
+                    open(rp, 'w').write('# concrete failing run of the real code found by the translation-validation runs\n# replay: VERIF_SEED=%d VERIF_YIELD_DEN=%s <exe_real of query %s>\n' % (nf['seed'], 0 if q.mode != 'seq' and not use_hook else 3, q.name))
+                    R['counterexamples'].append({'id': 'native.validation.assertion.seed%d' % nf['seed'], 'desc': nf['desc'], 'stream_len': 0, 'stream_file': rp, 'stream': [],
+                                                 'real_log': nf['log'], 'reproduced_on_real_code': True, 'found_by': 'translation-validation run of the real code'})
+                return R
         # cbmc
         t2 = time.time()
         cmd = cbmc_cmd(q, wd)
